@@ -52,14 +52,16 @@ class AppError(Exception):
 
 
 def BOUNDS(tier):
-    return {"max_fields": 3}
+    return {"max_fields": 3 if tier == "quick" else 4}
 
 
 def units(tier):
     out = []
-    for n in (1, 2, 3):
+    for n in (1, 2, 3) if tier == "quick" else (1, 2, 3, 4):
         for sers in itertools.product(range(5), repeat=n):
-            if n == 3 and sers.count(4) > 1:
+            if n >= 3 and sers.count(4) > 1:
+                continue
+            if n == 4 and sers.count(3) > 2:
                 continue
             out.append(list(sers))
     return out
